@@ -121,7 +121,7 @@ func runC16(c core.Case) core.Result {
 		sortEntries(upper)
 		sortEntries(lower)
 		ok := lv.Flush(toEntries(lower)) == nil && lv.CompactL0() && lv.CompactLN(1) // lower table -> L2
-		ok = ok && lv.Flush(toEntries(upper)) == nil && lv.CompactL0()             // upper table -> L1
+		ok = ok && lv.Flush(toEntries(upper)) == nil && lv.CompactL0()               // upper table -> L1
 		if !ok {
 			res.Verdict = "inconclusive"
 			res.Inconcl = "could not build the two-level layout"
@@ -270,7 +270,7 @@ func init() {
 	core.Register(&core.Check{
 		Prop: "C16", Level: "exploration",
 		Rule: "set cases: filter.Build over 1..30000 generated entries (binary, shared-prefix, hostile keys; many versions of one key), Contains(user key) asked for every entry; dir cases: 2-8 flushes into a standalone level manager (some tables holding keys only as tombstones), interleaved with CheckAndCompact, CompactLN and watermark raises; every table handle's filter is asked for every entry of its table after each flush, after each compaction and after handles were rebuilt by recovery (before and after the final compaction), with lookups of absent keys in between; movedown cases: a table moves from L1 to L2 and meets exactly as many new entries as stale versions are discarded (same size, other content); non-trivial = set with >=100 entries and a key with >=2 versions / directory with >=100 (table, entry) pairs examined; distinct by seed+size+profile or layout hash",
-		Gen: genC16, Run: runC16, BatchSize: 25, GoMaxProcs: 1, Parallel: 8,
+		Gen:  genC16, Run: runC16, BatchSize: 25, GoMaxProcs: 1, Parallel: 8,
 		MinNonTrivial: map[string]int{"quick": 60, "thorough": 2000},
 		Assumptions:   []string{"per-table filters are read through the verif accessor FilterMisses under the level manager's lock"},
 	})
